@@ -189,8 +189,10 @@ class LocationAction(object):
             return False
 
         # Have we fired too quickly?
+        # (with no period at all every hit is wanted - also one that was overtaken: its time was taken before another
+        # thread's later hit fired, so the difference is negative)
         last_fire = self.__stats.last_fire
-        if last_fire != 0:
+        if last_fire != 0 and self.__fire_period_ns() > 0:
             time_since_last = ts - last_fire
             if time_since_last < self.__fire_period_ns():
                 return False
